@@ -13,6 +13,7 @@ import (
 	"gitlab.com/gomidi/midi/v2/drivers/midicat"
 	cc "gitlab.com/gomidi/midi/v2/internal/verifh/conccases"
 	cp "gitlab.com/gomidi/midi/v2/internal/verifh/concpairs"
+	"gitlab.com/gomidi/midi/v2/internal/verifh/disturb"
 	"gitlab.com/gomidi/midi/v2/internal/verifh/engine"
 	"gitlab.com/gomidi/midi/v2/internal/verifh/faultio"
 )
@@ -563,6 +564,7 @@ func twoStreams() {
 
 func main() {
 	ctx = engine.Start("C19", "exploration")
+	disturb.Install(ctx)
 	if ctx.ReplayPath != "" {
 		if cp.Replay(ctx, ctx.LoadReplay(), "midicat", cc.Midicat()) {
 			ctx.Finish("replay")
